@@ -42,6 +42,8 @@ def run(ctx):
     set_cell_scale_varies(True)            # some datasets are 100 m / 5 m models expressed in degrees
     from ..model import set_declaration_order_varies
     set_declaration_order_varies(True)     # some datasets declare the x dimension before y
+    from ..model.grids import set_wide_longitudes
+    set_wide_longitudes(True)              # also datasets in the 0..360 convention / straddling 180 degrees
     total = ctx.n(480, 50000)
     for case, rng in ctx.cases(total):
         conv = CONVENTIONS[case % len(CONVENTIONS)]
@@ -265,6 +267,17 @@ def one_dataset(obs, rng, conv, spec, workdir=None):
                 kwargs['point_dimension'] = pdim
             call = lambda: ems.select_points(pts, **kwargs)   # noqa: E731
         odd_index = df is not None and index_style != 'range'
+        # a per-cell time stamp / duration on the grid (e.g. "time of last wetting"): 'fill' must give NaT for the misses
+        stamp = None
+        if 'stamp' in ds.variables:
+            del ds['stamp']
+        if policy == 'fill' and rng.random() < 0.5:
+            import xarray
+            face = model.kinds['face']
+            unit = ['datetime64[ns]', 'timedelta64[ns]'][int(rng.integers(2))]
+            stamp = (model.fresh_ids((face.size,)).astype('int64') * 1000000000).astype(unit)
+            ds['stamp'] = xarray.DataArray(stamp.reshape(face.shape), dims=face.dims)
+            obs.cls('fill:grid-variable-' + unit)
 
         def M(default):
             return 'dataframe-index-labels' if odd_index else default
@@ -337,6 +350,12 @@ def one_dataset(obs, rng, conv, spec, workdir=None):
                            lambda: {'var': name, 'located': located, 'got': got}, mech=M('points-values'))
             for g in model.geometry_names:
                 obs.expect(g not in out.variables, 'fill: geometry variable must be absent', lambda: {'var': g}, mech='geometry-present')
+            if stamp is not None and 'stamp' in out.variables:
+                got = out['stamp'].values
+                ok = got.dtype == stamp.dtype and all(
+                    (numpy.isnat(got[row]) if n is None else got[row] == stamp[n]) for row, n in enumerate(located))
+                obs.expect(bool(ok), "'fill': a time stamp / duration variable keeps its values for hits and is NaT for misses",
+                           lambda: {'got': got, 'located': located}, mech=M('points-values'))
         if len(obs.samples) < 4 and misses and hits:
             obs.sample({'convention': conv, 'api': api, 'policy': policy, 'point_dimension': pdim,
                         'points': [p.wkt for p in pts], 'classes': [c for _, c in pts_cls], 'located cells': located,
